@@ -192,6 +192,7 @@ theorem C09_scaled_at_most_once (c : Cfg σ) (ops : List Op) :
             | none => exact h2
             | some e => exact h2
         | restore m => exact h2
+        | observe => exact h2
         | finalize =>
             simp only [apply, finalize]
             by_cases hr : s.resultsReady = true
@@ -235,6 +236,29 @@ theorem C09_twins (c : Cfg σ) (m : Mode) (ops0 ops1 ops2 : List Op)
   simp only [applyAll, List.foldl_append, List.foldl_cons, List.foldl_nil] at ha hb
   exact ⟨ha.1, hb.1⟩
 
+/-- **Restores commute and are transparent** (at the cursor / guard level): any restores — of any modes, in any
+    order, a copy of a copy, a pickle of a loaded sim — and any read-only uses (`to_json`, `shrink(inplace=False)`,
+    `save(shrink=True)`, …) interleaved anywhere into an operation sequence leave the resulting state exactly what it
+    is without them. -/
+theorem C09_restores_transparent (c : Cfg σ) (ops : List Op) (s : State σ) :
+    applyAll c s ops = applyAll c s (ops.filter (fun op => !op.transparent)) := by
+  induction ops generalizing s with
+  | nil => rfl
+  | cons op r ih =>
+      cases op with
+      | restore m => simpa [applyAll, Op.transparent, apply] using ih s
+      | observe => simpa [applyAll, Op.transparent, apply] using ih s
+      | run u => simpa [applyAll, Op.transparent] using ih _
+      | simStep => simpa [applyAll, Op.transparent] using ih _
+      | loopStep => simpa [applyAll, Op.transparent] using ih _
+      | finalize => simpa [applyAll, Op.transparent] using ih _
+
+/-- …in particular two restores commute, and a restore of a restore is a restore. -/
+theorem C09_restores_commute (c : Cfg σ) (s : State σ) (m1 m2 : Mode) (ops : List Op) :
+    applyAll c s (.restore m1 :: .restore m2 :: ops) = applyAll c s (.restore m2 :: .restore m1 :: ops) ∧
+    applyAll c s (.restore m1 :: .restore m2 :: ops) = applyAll c s ops := by
+  simp [applyAll, apply]
+
 /-- The uninterrupted run is the special case of the empty history: `run()` on a fresh sim gives `finalState`, whose
     clocks are those of C08 (`C08_final_clocks`) after `Sim.run`'s adjustment. -/
 theorem C09_uninterrupted (c : Cfg σ) : (run c none (fresh c)).1 = finalState c := by
@@ -244,13 +268,14 @@ theorem C09_uninterrupted (c : Cfg σ) : (run c none (fresh c)).1 = finalState c
 /-! ### Non-vacuity: a concrete plan (the mixed-timestep example of C08), concrete pauses -/
 
 def exMods : List Mod :=
-  [⟨.demographics, false⟩, ⟨.networks, false⟩, ⟨.diseases, true⟩, ⟨.interventions, false⟩, ⟨.analyzers, false⟩]
+  [⟨.demographics, false, 2⟩, ⟨.networks, false, 3⟩, ⟨.diseases, true, 4⟩, ⟨.interventions, false, 5⟩,
+   ⟨.analyzers, false, 6⟩]
 def exTimes : Times :=
   Times.ofLists [[0, 1000000, 2000000], [0, 1000000, 2000000], [0, 1000000, 2000000],
-    [0, 500000, 1000000, 1500000, 2000000], [1000000, 2000000], [0, 2000000]]
+    [0, 500000, 1000000, 1500000, 2000000], [1000000, 2000000], [0, 2000000], [0, 1000000, 2000000]]
 /-- executed entries are recorded as their (time, func_order) -/
 def exCfg : Cfg (List (Int × Nat)) :=
-  ⟨makePlanI exTimes (collect Gen.collectFuncs exMods), [2000, 2001, 2002], 6, fun l e => l ++ [(e.time, e.order)], []⟩
+  ⟨makePlanI exTimes (collect Gen.loopRows exMods), [2000, 2001, 2002], 6, fun l e => l ++ [(e.time, e.order)], []⟩
 
 /-- `run(until=2000)` stops after the sim's first `finish_step` (22 functions), `loop.run_one_step` adds one,
     `sim.run_one_step` runs to the next sim `finish_step` … -/
